@@ -78,6 +78,45 @@ structure MergedOpts (α : Type) where
   Y : Option (YOpts α) := none
   F : Option (FOpts α) := none     -- key "Q[S(Q)-1]"
 
+/-- a JSON value as far as the setters distinguish it -/
+inductive JVal (α : Type) where
+  | null
+  | bool (b : Bool)
+  | num (x : α)
+  | str (s : String)
+
+structure FFJ (α : Type) where
+  /-- "Cutoff": absent / present with `null` / present with a number -/
+  Cutoff : Option (Option α) := none
+
+structure TransformJ (α : Type) where
+  Qmin : Option α := none
+  Qmax : Option α := none
+
+/-- the "Merging" dictionary: the post-merge options plus the ingestion window -/
+structure MergingJ (α : Type) where
+  opts : MergedOpts α := {}
+  Transform : Option (TransformJ α) := none
+
+structure OutputsJ where
+  StemName : Option String := none
+
+/-- the keyword arguments of `StoG(**kwargs)` (the JSON configuration), keys that reach settings the translated methods read -/
+structure KwargsJ (α : Type) where
+  RealSpaceFunction : Option String := none
+  Rmin : Option α := none
+  Rmax : Option α := none
+  Rdelta : Option α := none
+  Rpoints : Option α := none
+  NumberDensity : Option α := none
+  OmittedXrangeCorrection : Option (JVal α) := none
+  LorchFlag : Option (JVal α) := none
+  FourierFilter : Option (FFJ α) := none
+  bcoh : Option α := none
+  btot : Option α := none
+  Merging : Option (MergingJ α) := none
+  Outputs : Option OutputsJ := none
+
 /-- one call of `_write_out_to_file(x, y, filename)` -/
 structure Written (α : Type) where
   filename : String
